@@ -11,8 +11,10 @@ pulls are `FromChannel`'s select (channel_stream_provider.go:21-32) followed by 
 Contexts: ctx0 = caller ctx (outer terminal's check shpan_stream.go:134 and the pull's select);
 ctx1 = the outer materialisation ctx (doOpenStream, shpan_stream.go:300), handed to the lifecycle Open :42 and hence
 to the filler: inner ctx check, P.Emit(ctx1), the callback's select :59-62 and the final select :67-77 all use it.
-ctx1 is cancelled by ctx0 or by the outer terminal's deferred cancelFunc (shpan_stream.go:129); the lifecycle Close
-functions of Buffered / FromChannel are no-ops, so that cancelFunc is the whole close sequence.
+ctx1 is cancelled by ctx0 or by the outer terminal's close sequence.  Buffered's lifecycle Close (`stopBuffering`, fix B2)
+cancels the filler's context and WAITS until the filler goroutine has finished; only then the terminal's deferred
+cancelFunc runs (shpan_stream.go:129) and the terminal returns.  In the model `term1` is the filler's cancellation by the
+close sequence (label `cClose2`), and `cJoin` is the wait: it is enabled only when the filler is `done`.
 
 Channel: capacity size-1, created by the lifecycle Open of every materialisation (:47-50, fix 342661a: the stream value
 can be materialised again).  The filler's last send is the EOF marker or the upstream error (:65-78) and nothing
@@ -42,7 +44,7 @@ inductive FPc
   deriving DecidableEq, Repr, Hashable
 
 inductive CPc
-  | check | sel | got | close2 | ret
+  | check | sel | got | close2 | join | ret
   deriving DecidableEq, Repr, Hashable
 
 inductive Res
@@ -88,7 +90,7 @@ structure St where
 inductive Label
   | fOpenOk | fOpenErr | fCheck | fEmitVal | fEmitEof | fEmitErr | fSend | fSkip | fCloseP | fClosed
   | fSendFin | fDropFin | fCloseCh
-  | cOpenFail | cCheck | cSelCtx | cRecv | cClosed | cNext | cRepull | cStop | cFail | cClose2
+  | cOpenFail | cCheck | cSelCtx | cRecv | cClosed | cNext | cRepull | cStop | cFail | cClose2 | cJoin
   | cancel
   deriving DecidableEq, Repr
 
@@ -173,7 +175,9 @@ def step (cfg : Cfg) (s : St) : Label → Option St
   | .cRepull => if s.cons = .got then some { s with cons := .sel } else none
   | .cStop => if s.cons = .got then some { s with cons := .close2, res := some .ok, stopped := true } else none
   | .cFail => if s.cons = .got then some { s with cons := .close2, res := some .errOther, stopped := true } else none
-  | .cClose2 => if s.cons = .close2 then some { s with cons := .ret, term1 := true } else none
+  | .cClose2 => if s.cons = .close2 then some { s with cons := .join, term1 := true } else none
+  | .cJoin =>      -- buffered_stream.go `stopBuffering`: `<-bufferingDone`, closed by the filler's first deferred call
+    if s.cons = .join ∧ s.f = .done then some { s with cons := .ret } else none
   | .cancel => if s.ctx0 then none else some { s with ctx0 := true }
 
 def sys (cfg : Cfg) : Sys St Label := { init := init cfg, step := step cfg }
@@ -187,7 +191,7 @@ def inHand (i : Nat) : FPc → Nat
 def cnt (i : Nat) (s : St) : Nat := inHand i s.f + s.ch.count i + s.delivered.count i
 
 def internalLabels (_s : St) : List Label :=
-  [.cCheck, .cRecv, .cClosed, .cSelCtx, .cClose2,
+  [.cCheck, .cRecv, .cClosed, .cSelCtx, .cClose2, .cJoin,
    .fOpenOk, .fCheck, .fSend, .fSkip, .fCloseP, .fClosed, .fSendFin, .fDropFin, .fCloseCh]
 
 end ShpanVerif.Model.Buffered
